@@ -125,6 +125,7 @@ class Session:
         self.ids = {}
         self.keep = []
         self.nested = nested
+        self._hold = None
         self.lists = Lists()
         self.lists.append(di.ListOfDicts([(nest(to_py(x), nested) if nested else to_py(x)) for x in init_items]))
         self.note(self.lists[0])
@@ -164,9 +165,13 @@ class Session:
                 self.note(out)
         except Exception as ex:
             err = type(ex).__name__ + ": " + str(ex)[:80]
+        # a temporary created by the previous call stayed alive for this call (as inside a method chain); now it is let go
+        self._hold = None
+        if e.get("tmp") and not err and e["a"]["op"] not in READERS and e["a"]["op"] != "poke":
+            self._hold = out
         out = None
         obs = self.observe()
-        if e.get("tmp") and not err and e["a"]["op"] not in READERS and e["a"]["op"] != "poke":
+        if self._hold is not None:
             self.lists.weaken(len(self.lists) - 1, obs["lists"][-1])       # held weakly from now on
         obs["ret"] = ret
         obs["fresh"] = fresh
@@ -255,6 +260,34 @@ def deepcopy_trace(rng):
     return tr
 
 
+def chain_trace(rng):
+    """Focused history: a method chain whose intermediate lists nobody keeps - a.filter(..).sort(..) - and then an
+    editing method on the result: every list the result was derived from, the original included, is obsolete."""
+    init = [{"a": rng.choice([-1, 0, 1]), "b": rng.choice([-1, 0, 1])} for _ in range(rng.randint(2, 4))]
+    nested = rng.choice([False, False, True])
+    s = Session(init, nested)
+    tr = {"init": {"items": [to_abs_nested(x) for x in s.keep], "lists": [[s.ids[id(it)] for it in list.__iter__(s.lists[0])]]},
+          "nested": nested, "steps": []}
+    sharing = [a for a in UNARY if a["op"] in ("filter", "filter_out", "sort", "unique", "head", "tail", "slice", "copy", "reverse", "drop_na")
+               and a.get("p", {}).get("f") != "false" and a.get("n", 1) != 0]
+    x = 1
+    for k in range(rng.randint(2, 3)):
+        e = {"x": x, "o": 0, "a": rng.choice(sharing), "tmp": k < 2 and rng.random() < 0.8}
+        e["obs"] = s.step(e)
+        tr["steps"].append(e)
+        if e["obs"]["err"]:
+            return tr
+        x = len(s.lists)
+    if s.lists[x - 1] is not None and len(s.lists[x - 1]):
+        e = {"x": x, "o": 0, "a": rng.choice([a for a in UNARY if a["op"] in ("modify", "fill", "fill_all", "unselect", "modify_if")])}
+        e["obs"] = s.step(e)
+        tr["steps"].append(e)
+        e = {"x": 1, "o": 0, "a": {"op": "copy"}}          # the next use of the original: one warning
+        e["obs"] = s.step(e)
+        tr["steps"].append(e)
+    return tr
+
+
 GEN_INIT = [{"a": 0, "b": -1}, {"a": 1, "b": 1}, {"a": 0}]      # LoDSMEvents!InitSt
 
 
@@ -302,6 +335,7 @@ def run(ctx):
     ntr = 1500 if quick else 20000
     traces = [random_trace(rng, rng.randint(2, 7)) for _ in range(ntr)]
     traces += [deepcopy_trace(rng) for _ in range(ntr // 4)]
+    traces += [chain_trace(rng) for _ in range(ntr // 5)]
     # spec -> code: every behaviour of the session machine enumerated by TLC (LoDSMGen) is replayed call by call
     gcfg = "INIT Init\nNEXT Next\nINVARIANT Inv\nCONSTANTS\n  MaxLists = %d\n  MaxItems = 12\n  PreEvents = {%s}\n"
     rg = ctx.model_check("LoDSMGen", cfg_text=gcfg % (3, '"", "keys", "pluck", "poke"'), timeout=3000)
